@@ -22,6 +22,24 @@ func repeatLength(m int, count Int) (int, error) {
 	return int(count) * m, nil
 }
 
+// Orders two sequences of objects as list and tuple do
+//
+// The first pair of items which differ decides, using op on them (one
+// of Lt, Le, Gt, Ge); if there is none the lengths decide, using
+// lenOp.
+func sequenceOrder(a, b []Object, op func(a, b Object) (Object, error), lenOp func(la, lb int) bool) (Object, error) {
+	for i := 0; i < len(a) && i < len(b); i++ {
+		eq, err := Eq(a[i], b[i])
+		if err != nil {
+			return nil, err
+		}
+		if eq == False {
+			return op(a[i], b[i])
+		}
+	}
+	return NewBool(lenOp(len(a), len(b))), nil
+}
+
 // Converts a sequence object v into a Tuple
 func SequenceTuple(v Object) (Tuple, error) {
 	switch x := v.(type) {
